@@ -12,7 +12,7 @@ use std::f64::consts::PI;
 pub fn monitor() -> Monitor {
   Monitor { id: "C13",
     rule: "elliptical cones: centres as for C05 (sphere, poles, seams, transition latitude, exact cell centres), semi-major axis a from 1e-10 rad to 0.999 pi/2 (log-uniform, 1e-3..40 cell sizes of the query depth, radii aimed at (1 +- u) x each starting-depth threshold), b/a in [0.05, 1] with one third exactly circular, position angle in [0, pi), query depth 0..29, delta 0..3 (depth+delta <= 29), a/cell <= 40. Oracles: no panic, well formed, centre cell covered, every cell centre within a + 2 x 1.08/nside(its depth), circular => the C05 witness oracle (>= 160 points strictly inside), a >= pi/2 panics for both entry points. Non-trivial = ellipse containing a pole / touching a seam meridian or the transition latitude / a within 5% of a threshold / delta > 0 / circular.",
-    assumptions: &["Layer::hash (C01) locates centre and witnesses", "1.08/nside bounds the largest centre-to-vertex distance"],
+    assumptions: &["Layer::hash (C01) locates centre and witnesses", "largest centre-to-vertex distance per depth from refm::cell_radius_bound (measured)"],
     run, replay }
 }
 
